@@ -319,7 +319,11 @@ func visitInstr(fr *frame, ci *cinstr) continuation {
 		fr.regs[ci.dst] = newOmap()
 
 	case *ssa.Range:
-		fr.regs[ci.dst] = i.rangeIter(fr.get(ci.x), instr.X.Type())
+		it := i.rangeIter(fr.get(ci.x), instr.X.Type())
+		if oi, ok := it.(*omapIter); ok && len(oi.keys) >= 2 && len(oi.keys) <= 3 && i.cfg != nil && i.cfg.MapOrderFuncs[fr.cf.name] {
+			i.permuteIter(oi)
+		}
+		fr.regs[ci.dst] = it
 
 	case *ssa.Next:
 		fr.regs[ci.dst] = fr.get(ci.x).(iter).next()
@@ -407,6 +411,42 @@ func visitInstr(fr *frame, ci *cinstr) continuation {
 		panic(fmt.Sprintf("unexpected instruction: %T", instr))
 	}
 	return kNext
+}
+
+// permuteIter makes the iteration order of a small map a symbolic choice
+// (Go leaves it unspecified): one path per permutation.
+func (i *interpreter) permuteIter(it *omapIter) {
+	n := len(it.keys)
+	fact := 1
+	for k := 2; k <= n; k++ {
+		fact *= k
+	}
+	s := i.sym
+	v := s.fresh("maporder", 8)
+	s.assume(s.tt.bvcmp(opBvUlt, v, s.tt.bv(uint64(fact), 8)))
+	p := int(s.concretise(v))
+	idx := make([]int, n)
+	for k := range idx {
+		idx[k] = k
+	}
+	// decode p as a permutation (factorial number system)
+	var order []int
+	for k := n; k >= 1; k-- {
+		f := 1
+		for j := 2; j < k; j++ {
+			f *= j
+		}
+		q := p / f
+		p = p % f
+		order = append(order, idx[q])
+		idx = append(idx[:q:q], idx[q+1:]...)
+	}
+	keys := make([]value, n)
+	vals := make([]value, n)
+	for k, o := range order {
+		keys[k], vals[k] = it.keys[o], it.vals[o]
+	}
+	it.keys, it.vals = keys, vals
 }
 
 // checkIndex validates idx against length n, forking on a symbolic index.
